@@ -441,7 +441,7 @@ func init() {
 			New:  "\t\t\t\tlit2 := constr[j].Negation()\n\t\t\t\tfound := containsLit(propagates[lit2], other)\n\t\t\t\tif !found {",
 			More: []edit{{"solver/problem.go", "// removeBinaries removes the binary clauses", "func containsLit(lits []Lit, l Lit) bool {\n\tfor _, l2 := range lits {\n\t\tif l2 == l {\n\t\t\treturn true\n\t\t}\n\t}\n\treturn false\n}\n\n// removeBinaries removes the binary clauses"}}, Expect: ""},
 		seed{Prop: "C13", Name: "benign-opb-skip-comment-first", File: "solver/parser_pb.go",
-			Old: "\t\tif line == \"\" || line[0] == '*' {\n\t\t\tcontinue\n\t\t}", New: "\t\tif line == \"\" {\n\t\t\tcontinue\n\t\t}\n\t\tif line[0] == '*' {\n\t\t\tcontinue\n\t\t}", Expect: ""},
+			Old: "\t\tif line == \"\" {\n\t\t\tcontinue\n\t\t}\n\t\tif line[0] == '*' { // A comment; the first one usually declares the number of variables\n\t\t\tpb.parseOPBHeader(line)\n\t\t\tcontinue\n\t\t}", New: "\t\tif line == \"\" {\n\t\t\tcontinue\n\t\t}\n\t\tif strings.HasPrefix(line, \"*\") {\n\t\t\tpb.parseOPBHeader(line)\n\t\t\tcontinue\n\t\t}", Expect: ""},
 		seed{Prop: "C18", Name: "benign-pbstring-append-lines", File: "solver/solver.go",
 			Old: "\tclauses := make([]string, len(s.wl.origClauses)+len(s.wl.learned))\n\tfor i, c := range s.wl.origClauses {\n\t\tclauses[i] = c.PBString()\n\t}\n\tfor i, c := range s.wl.learned {\n\t\tclauses[i+len(s.wl.origClauses)] = c.PBString()\n\t}",
 			New: "\tclauses := make([]string, 0, len(s.wl.origClauses)+len(s.wl.learned))\n\tfor _, c := range s.wl.origClauses {\n\t\tclauses = append(clauses, c.PBString())\n\t}\n\tfor _, c := range s.wl.learned {\n\t\tclauses = append(clauses, c.PBString())\n\t}", Expect: ""},
